@@ -160,3 +160,42 @@ func freshRulePerIteration(c *Ctx, rule string) {
 	}
 	R.Role(rule, "style rule values built by the style builders", n, 1)
 }
+
+// tokenNameFixed: in (*Policy).sanitize the current token's Data (and Type) are never stored to after the token was
+// read — the name the gates and the element tables judge is the name Token.String() writes.
+func tokenNameFixed(c *Ctx, rule, consequence string) {
+	R := c.R
+	s, err := model.FindSan(c.P)
+	if err != nil {
+		R.Unknown(rule, "token-name", "(*Policy).sanitize", "", err.Error())
+		return
+	}
+	n := 0
+	for _, b := range s.Fn.Blocks {
+		for _, in := range b.Instrs {
+			st, ok := in.(*ssa.Store)
+			if !ok {
+				continue
+			}
+			root := st.Addr
+			for {
+				if fa, ok := root.(*ssa.FieldAddr); ok {
+					root = fa.X
+					continue
+				}
+				break
+			}
+			if root != ssa.Value(s.TokAlloc) {
+				continue
+			}
+			n++
+			fa, isField := st.Addr.(*ssa.FieldAddr)
+			if !isField {
+				continue // token := tokenizer.Token()
+			}
+			f := pa.FieldName(fa)
+			R.Check(f != "Data" && f != "Type", rule, "token-name:"+f+":"+s.ArmOf(b), "(*Policy).sanitize arm "+s.ArmOf(b)+": store to token."+f, c.P.Pos(st.Pos()), "the token's name and type stay as read", "the token's "+f+" is rewritten after it was read: "+consequence)
+		}
+	}
+	R.Role(rule, "stores to the current token", n, 1)
+}
